@@ -7548,12 +7548,12 @@ def unpack_objects(
     with open_repo_closing(target) as r:
         pack_basename = os.path.splitext(pack_path)[0]
         with Pack(pack_basename, object_format=r.object_store.object_format) as pack:
-            count = 0
-            for unpacked in pack.iter_unpacked():
-                obj = unpacked.sha_file()
+            # Resolve the whole pack before adding anything: a pack that fails
+            # half way through must not leave its first objects behind.
+            objects = [unpacked.sha_file() for unpacked in pack.iter_unpacked()]
+            for obj in objects:
                 r.object_store.add_object(obj)
-                count += 1
-            return count
+            return len(objects)
 
 
 def merge_tree(
